@@ -18,3 +18,7 @@ for id in "$@"; do
     fi
 done
 rm -rf /verif/replays
+# leave a clean binary behind (the last build above was against the mutated tree)
+git -C /repo checkout -- .
+trap - EXIT INT TERM
+(cd /verif/sim && cargo build --release --offline >/dev/null 2>&1)
